@@ -8,6 +8,7 @@ evaluation of the written comparison on the values in force at each tick.
 import itertools
 from fractions import Fraction
 
+import random
 from vf.flo import prog as P
 
 LEVEL = "exploration"
@@ -65,12 +66,13 @@ def ref_clause(cl, i, k, vals, since=0):
     return (not r) if cl.get("neg") else r
 
 
-def clause_need(cl, i):
+def clause_need(cl, i, sfield=None):
     if cl["kind"] == "bool":
-        return {"n": "bool", "state": ".s%d" % i, "neg": cl.get("neg", False)}
+        return {"n": "bool", "state": ".s%d" % i, "neg": cl.get("neg", False), "field": sfield}
     state = {"elapsed": "elapsed", "recurred": "recurred"}.get(cl["kind"], ".s%d" % i)
     goal = {"path": ".g%d" % i} if cl.get("indirect") else ({"raw": cl["goal_raw"]} if cl.get("goal_raw") else cl["goal"])
-    return P.cmp(state, cl["op"], goal, tol=cl.get("tol"), neg=cl.get("neg", False))
+    return P.cmp(state, cl["op"], goal, tol=cl.get("tol"), neg=cl.get("neg", False),
+                 field=sfield if cl["kind"] == "val" else None)
 
 
 def orderable(a, b):
@@ -154,7 +156,12 @@ def gen_random(rng, n):
             # only one indirect goal share per framer, reserved for the 'val' clause whose goal is g
             clauses.append({"kind": kind, "op": op, "goal": goal, "tol": tol, "neg": rng.random() < 0.3,
                             "indirect": kind == "val" and rng.random() < 0.4})
-        cases.append({"v0": v0, "v1": v1, "g": g, "clauses": clauses})
+        c = {"v0": v0, "v1": v1, "g": g, "clauses": clauses}
+        # the state kept in a named field of its share (`depth in .s0 >= .g0`): an indirect goal written without a field
+        # is still the goal share's value
+        if random.Random(repr(c)).random() < 0.3:
+            c["sfield"] = "depth"
+        cases.append(c)
     return cases
 
 
@@ -162,11 +169,11 @@ def build_batch(batch):
     inits, framers = [], []
     chg = []
     for i, c in enumerate(batch):
-        inits.append([".s%d" % i, {"value": c["v0"]}])
+        inits.append([".s%d" % i, {c.get("sfield") or "value": c["v0"]}])
         inits.append([".g%d" % i, {"value": c["g"]}])
         if c["v1"] is not None:
-            chg.append({"v": "put", "data": {"value": c["v1"]}, "dst": ".s%d" % i, "ctx": None})
-        needs = [clause_need(cl, i) for cl in c["clauses"]]
+            chg.append({"v": "put", "data": {c.get("sfield") or "value": c["v1"]}, "dst": ".s%d" % i, "ctx": None})
+        needs = [clause_need(cl, i, c.get("sfield")) for cl in c["clauses"]]
         mode = c.get("mode", "go")
         if mode.endswith("let"):
             # the same condition as an entry condition of frame b: the unconditional `go b` is attempted at every
@@ -231,7 +238,7 @@ def worker(ctx, job):
         for i, c in enumerate(batch):
             name = "q%d" % i
             if c.get("mode") == "twin-go":
-                cond = P.render_needs([clause_need(cl, i) for cl in c["clauses"]])
+                cond = P.render_needs([clause_need(cl, i, c.get("sfield")) for cl in c["clauses"]])
                 ctx.case([cond, c["v0"], c["v1"], c["g"], "twin", c["delay"]], nontrivial=name in evaluated)
                 ctx.hit("mode_twin-go")
                 for who, since in (("q%d_k" % i, 0), ("q%dw_k" % i, c["delay"])):
@@ -244,7 +251,7 @@ def worker(ctx, job):
                               "written comparison on its own clocks says %s" % (cond, who, since, c["v0"], c["v1"], CH, got, exp),
                               {"condition": cond, "case": c, "clone": who, "entered_at": since, "observed_tick": got, "expected_tick": exp})
                 continue
-            cond = P.render_needs([clause_need(cl, i) for cl in c["clauses"]])
+            cond = P.render_needs([clause_need(cl, i, c.get("sfield")) for cl in c["clauses"]])
             exp = expected_tick(c, i)
             got = entered.get(name)
             ctx.case([cond, c["v0"], c["v1"], c["g"]], nontrivial=name in evaluated,
@@ -258,6 +265,8 @@ def worker(ctx, job):
                     ctx.hit("with_tolerance")
                 if cl.get("indirect"):
                     ctx.hit("indirect_goal")
+                    if c.get("sfield"):
+                        ctx.hit("indirect_goal_without_field_beside_a_state_field")
             if len(c["clauses"]) > 1:
                 ctx.hit("conjunctions")
             ctx.hit("mode_" + c.get("mode", "go"))
@@ -301,6 +310,7 @@ def run(ctx):
     ctx.floor("negated", 200)
     ctx.floor("with_tolerance", 200)
     ctx.floor("indirect_goal", 200)
+    ctx.floor("indirect_goal_without_field_beside_a_state_field", 30)
     ctx.floor("conjunctions", 200)
     ctx.floor("expected_true", 500)
     ctx.floor("expected_never", 500)
